@@ -2,7 +2,7 @@
    Print Assumptions beneath.  Definitions: C15/Model.v, C15/LibPercent.v (urllib quote and
    unquote), lib/Utf8.v (codecs, the dance), C15/Gen.v (regenerated: i2u_safe_*, u2i_keep_*,
    gcu_safe_*, dispatch_sep). *)
-From Wz Require Import lib.Bytes lib.Utf8 C15.LibPercent C15.Gen C15.Model C15.Proofs.
+From Wz Require Import lib.Bytes lib.Utf8 C15.LibPercent C15.Gen C15.Model C15.Proofs C15.Fixpoint.
 Open Scope N_scope.
 
 (* DispatcherMiddleware, for every mount table, default application and request path: the
@@ -75,25 +75,46 @@ Theorem C15_u2i_fixpoint_refuted :
 Proof. exact u2i_fixpoint_refuted. Qed.
 Print Assumptions C15_u2i_fixpoint_refuted.
 
-(* PARTIAL (guard wider than the refuting class): on the URI that iri_to_uri produces from
-   text without a percent sign, uri_to_iri is a fixpoint after one step.  Stray percent
-   signs (the refuting class) and well-formed escapes written in the IRI are both outside. *)
-Theorem C15_u2i_fixpoint_partial : forall c s q,
-  valid_text s = true -> mem PCT s = false -> i2u c s = Some q ->
-  u2i c (u2i c q) = u2i c q.
-Proof. exact u2i_fixpoint_partial. Qed.
+(* PARTIAL, guard = no stray percent sign: on every text in which each percent sign starts an
+   escape (wf_pct: two hex digits follow), uri_to_iri is a fixpoint after one step -- whatever the
+   escapes decode to (valid UTF-8, truncated or overlong sequences, lone continuation bytes,
+   reserved characters in either hex case) and whatever raw characters surround them.
+   The refuting class (a stray percent sign followed by text that unquotes to hex digits) is
+   inside the excluded class; inputs like 100 percent are excluded although they are fixpoints. *)
+Theorem C15_u2i_fixpoint_partial : forall c s, wf_pct s = true -> u2i c (u2i c s) = u2i c s.
+Proof. exact u2i_fixpoint_wf. Qed.
 Print Assumptions C15_u2i_fixpoint_partial.
 
-(* PARTIAL (same guard): iri_to_uri is undone by uri_to_iri up to normalisation -- the result
-   is the text itself except that a character which iri_to_uri quotes and uri_to_iri keeps
-   quoted for this component (controls, space, DEL, and the reserved characters of the
-   component that are not in the safe string) appears as its escape; that normal form is a
-   fixpoint of uri_to_iri *)
-Theorem C15_i2u_u2i_partial : forall c s, valid_text s = true -> mem PCT s = false ->
+(* the guard is necessary: the refuting input violates it *)
+Theorem C15_u2i_fixpoint_guard_needed :
+  exists s, wf_pct s = false /\ u2i CPath (u2i CPath s) <> u2i CPath s.
+Proof. exact u2i_fixpoint_guard_needed. Qed.
+Print Assumptions C15_u2i_fixpoint_guard_needed.
+
+(* PARTIAL (same guard): iri_to_uri is undone by uri_to_iri up to normalisation, also for text
+   that already contains escapes -- uri_to_iri (iri_to_uri s) is uri_to_iri s, except that a
+   character which iri_to_uri quotes and uri_to_iri keeps quoted for this component (controls,
+   space, DEL and the reserved characters of the component that are not in the safe string)
+   appears as its escape *)
+Theorem C15_i2u_u2i_partial : forall c s, valid_text s = true -> wf_pct s = true ->
+  exists q, i2u c s = Some q /\ u2i c q = iri_normal c (u2i c s).
+Proof. exact u2i_of_i2u_wf. Qed.
+Print Assumptions C15_i2u_u2i_partial.
+
+(* for text without any percent sign uri_to_iri s is s itself, and the normal form is a fixpoint *)
+Theorem C15_i2u_u2i_plain_text : forall c s, valid_text s = true -> mem PCT s = false ->
   (exists q, i2u c s = Some q /\ u2i c q = iri_normal c s)
   /\ u2i c (iri_normal c s) = iri_normal c s.
 Proof. exact i2u_u2i_partial. Qed.
-Print Assumptions C15_i2u_u2i_partial.
+Print Assumptions C15_i2u_u2i_plain_text.
+
+(* what unquote with the re-quoting handler computes: percent-decode to bytes (escapes become
+   bytes, everything else its UTF-8), then decode with the handler -- the ASCII-run splitting of
+   urllib is invisible *)
+Theorem C15_unquote_is_decode : forall x, valid_text x = true ->
+  unquote_rq x = utf8_decode_requote (tbytes x).
+Proof. exact unquote_rq_tbytes. Qed.
+Print Assumptions C15_unquote_is_decode.
 
 (* component-specific reserved characters stay quoted: every escape of a code point in the
    component's table (either hex case, alone or between two letters) is left as it is *)
@@ -139,3 +160,61 @@ Theorem C15_get_host_example :
   /\ get_host HTTPS None (Some ([50; 48; 48; 49; 58; 58; 56], Some [52; 52; 51])) = [91; 50; 48; 48; 49; 58; 58; 56; 93].
 Proof. exact get_host_example. Qed.
 Print Assumptions C15_get_host_example.
+
+(* get_current_url re-splits into what it was built from (the EnvironBuilder -> Request.url
+   clause on the modelled URL subset): for a scheme without a colon, a host without slash,
+   question mark or hash, a root path that is empty or starts with a slash, any path and any
+   query bytes, the URI handed to uri_to_iri splits (split_uri: urlsplit on this subset) into
+   the same scheme and host, the path quote(root.rstrip) / quote(path.lstrip), and the quoted
+   query (absent when the query string is empty or not given) *)
+Theorem C15_current_url_resplit : forall scheme host root path qs qr qp,
+  mem 58 scheme = false -> forallb not_delim host = true ->
+  bounded (rstrip_char 47 root) = true ->
+  quote gcu_safe_root (rstrip_char 47 root) = Some qr ->
+  quote gcu_safe_path (lstrip_char 47 path) = Some qp ->
+  match qs with Some q => Forall (fun b => b < 256) q | None => True end ->
+  exists u, current_uri scheme host (Some root) (Some path) qs = Some u
+            /\ split_uri u = Some (scheme, host, qr ++ 47 :: qp, query_part qs).
+Proof. exact current_uri_resplit. Qed.
+Print Assumptions C15_current_url_resplit.
+
+(* PARTIAL (guard: no percent sign in root and path): percent-decoding the re-split path gives
+   root / path back exactly *)
+Theorem C15_current_url_path_partial : forall root path qr qp,
+  mem PCT root = false -> mem PCT path = false ->
+  quote gcu_safe_root root = Some qr -> quote gcu_safe_path path = Some qp ->
+  utf8_decode (unq_bytes (qr ++ 47 :: qp)) = Some (root ++ 47 :: path).
+Proof. exact current_url_path_meaning. Qed.
+Print Assumptions C15_current_url_path_partial.
+
+(* the guard is necessary: the percent sign is safe in get_current_url, so the decoded path
+   a percent 4 1 is rebuilt as a URL whose path decodes to a A (known finding
+   request-url-literal-percent-escape) *)
+Theorem C15_current_url_path_refuted :
+  exists path qp, quote gcu_safe_path path = Some qp
+    /\ utf8_decode (unq_bytes (47 :: qp)) = Some [47; 97; 65]
+    /\ [47; 97; 65] <> 47 :: path.
+Proof. exact current_url_path_refuted. Qed.
+Print Assumptions C15_current_url_path_refuted.
+
+(* wsgi.get_current_url: host_only stops after the host, root_only after the root path,
+   strip_querystring before the query (conditions regenerated from the nested ifs) *)
+Theorem C15_wsgi_url_flags : forall scheme hh server script path_info qs,
+  wsgi_current_uri false false true scheme hh server script path_info qs
+    = Some ((scheme ++ [58; 47; 47] ++ get_host scheme hh server) ++ [47])
+  /\ (forall r, wsgi_decoding_dance_replace script = Some r ->
+        wsgi_current_uri true false false scheme hh server script path_info qs
+        = current_uri scheme (get_host scheme hh server) (Some r) None None)
+  /\ (forall r p, wsgi_decoding_dance_replace script = Some r -> wsgi_decoding_dance_replace path_info = Some p ->
+        wsgi_current_uri false true false scheme hh server script path_info qs
+        = current_uri scheme (get_host scheme hh server) (Some r) (Some p) None).
+Proof. exact wsgi_url_flags. Qed.
+Print Assumptions C15_wsgi_url_flags.
+
+Theorem C15_current_url_example :
+  current_uri [104; 116; 116; 112] [104] (Some [47; 114; 47]) (Some [47; 233; 32]) (Some [97; 61; 35])
+  = Some [104; 116; 116; 112; 58; 47; 47; 104; 47; 114; 47; 37; 67; 51; 37; 65; 57; 37; 50; 48; 63; 97; 61; 37; 50; 51]
+  /\ split_uri [104; 116; 116; 112; 58; 47; 47; 104; 47; 114; 47; 37; 67; 51; 37; 65; 57; 37; 50; 48; 63; 97; 61; 37; 50; 51]
+     = Some ([104; 116; 116; 112], [104], [47; 114; 47; 37; 67; 51; 37; 65; 57; 37; 50; 48], Some [97; 61; 37; 50; 51]).
+Proof. exact current_url_example. Qed.
+Print Assumptions C15_current_url_example.
